@@ -211,4 +211,6 @@ def run(repo, tier):
         raise AnalysisError('vanished anchor: zero weight for masked pixels in centroid_2dg')
     guard_only(res, 'GUARD', c2, zw[0], {'data.mask is not np.ma.nomask'}, 'the zero weight of masked pixels',
                'without an error array masked pixels enter the fit as zero-filled points with full weight')
+    from .common import run_generic_pack
+    run_generic_pack(repo, res, PROP, MODS)
     return res
